@@ -1,21 +1,27 @@
-(** Correspondence + property checker for C04 (marker send restriction).
+(** Correspondence + property checker for C04 (marker send restriction, alone and composed with the
+    sanction and quarantine restrictions in the application's bank).
 
-    A [CSend] case is one abstract configuration as realised by the harness with the real
-    keepers (the slice of the state the decision can depend on), the sender, receiver and coins,
-    and what the implementation answered:
-      [fn_ok]      Keeper.SendRestrictionFn returned no error
+    A [CSend] case is one abstract configuration as realised by the harness with the real keepers
+    (the slice of the state the decision can depend on: marker part, sanctioned addresses, quarantine
+    opt-ins / auto-accepts / holder, context flags), the sender, receiver and coins, and what the
+    implementation answered:
+      [fn_ok]      the MARKER keeper's SendRestrictionFn alone returned no error
       [fn_same_to] ... and returned the receiver unchanged
       [singles]    its answers for each coin of the amount sent alone (same context)
-      [send], [io], [deleg]  bank SendCoins / InputOutputCoins (one output) / DelegateCoins run
-                   in a scratch copy of the state: not run, denied, or accepted with the balance
-                   change (denom, sender delta, receiver delta) of every denom in the amount.
-    The harness funds the sender, keeps it unsanctioned and the receiver unquarantined and
-    without holds, so the bank accepts exactly when the marker restriction does and then moves
-    exactly the amount (this bank behaviour is modelled here and checked by "corr:*_balances").
+      [send], [io], [deleg]  the REAL bank's SendCoins / InputOutputCoins (one output) / DelegateCoins
+                   (all three restrictions active) run in a scratch copy of the state: not run, denied,
+                   or accepted with the balance change (denom, sender, receiver, quarantine holder)
+                   of every denom in the amount.
+    The harness funds the sender and keeps it free of holds, so the bank accepts exactly when the
+    composed restriction does and then moves exactly the amount to the destination the restriction
+    returned (this bank behaviour is modelled here and checked by "corr:*_balances").
+    [CTransfer], [CSettle], [CValueOwner] are the real endpoints MsgTransferRequest, exchange
+    MsgMarketSettle and metadata MsgUpdateValueOwners run through the message router; the model is
+    evaluated with the context flags those endpoints set (reviewed setter sites, Base/WiringDoc.v).
     "corr:*" tags compare with the code model, "prop:*" tags evaluate the documented rules and the
     property's "in particular" clauses on the implementation's own answer. *)
 From Coq Require Import ZArith PArith NArith List String Bool Ascii.
-From PV Require Export Marker.SendRestr Marker.SendRestrSpec Corr.CorrBase.
+From PV Require Export Marker.SendRestr Marker.SendRestrSpec Marker.SendCompose Corr.CorrBase.
 Import ListNotations.
 Open Scope string_scope.
 Open Scope list_scope.
@@ -29,21 +35,32 @@ Definition MK (d : Z) (t : mtype) (s : mstatus) (req : list string) (acc : list 
            (forced : bool) : account :=
   AcctMarker (Build_marker (Z.to_pos d) t s (map b req) acc forced).
 Definition AT (a : addr) (names : list string) : addr * list name := (a, map b names).
+(** marker configuration, sanctioned addresses + sanction bypass, quarantine opt-ins / auto-accept
+    pairs / holder / bypass *)
+Definition AC (c : config) (sanctioned : list addr) (sbypass : bool)
+           (optin : list addr) (auto : list (addr * addr)) (holder : addr) (qbypass : bool) : app_config :=
+  Build_app_config c (Build_sanction_cfg sanctioned sbypass) (Build_quarantine_cfg optin auto holder qbypass).
 
 Inductive bank_obs :=
 | BNotRun
 | BDenied
-| BMoved (deltas : list (denom * Z * Z)).
+| BMoved (deltas : list (denom * Z * Z * Z)).      (* denom, sender, receiver, quarantine holder *)
 
 Inductive multi_obs :=
 | MDenied
-| MMoved (from_deltas : list (denom * Z)) (out_deltas : list (list (denom * Z))).
+| MMoved (from_deltas : list (denom * Z)) (out_deltas : list (list (denom * Z))) (holder_deltas : list (denom * Z)).
 
 Inductive case :=
-| CSend (c : config) (from to : addr) (amt : coins)
+| CSend (ac : app_config) (from to : addr) (amt : coins)
         (fn_ok fn_same_to : bool) (singles : list bool) (send io deleg : bank_obs)
-| CMulti (c : config) (from : addr) (outs : list (addr * coins)) (fn_oks : list bool) (io : multi_obs)
-| CMatch (req attr : string) (obs : bool).
+| CMulti (ac : app_config) (from : addr) (outs : list (addr * coins)) (fn_oks : list bool) (io : multi_obs)
+| CMatch (req attr : string) (obs : bool)
+| CTransfer (ac : app_config) (admin from to : addr) (d : denom) (a : Z)
+            (authz_ok from_forcible to_blocked : bool) (obs : bank_obs)
+| CSettle (ac : app_config) (admin : addr) (legs : list (addr * addr * coins * bool))
+          (accepted : bool) (deltas : list (addr * denom * Z))
+| CValueOwner (ac : app_config) (signers : list addr) (owner to : addr) (d : denom) (to_blocked : bool)
+              (obs : bank_obs).
 
 (** ** The property's "in particular" clauses, on an answer [ok] of the implementation. *)
 Definition bypassed (c : config) (from : addr) : bool :=
@@ -75,6 +92,7 @@ Definition deposit_clause (c : config) (from to : addr) : bool :=
   | None => true
   end.
 
+(** The marker keeper's own answer. *)
 Definition check_answer (what : string) (c : config) (from to : addr) (amt : coins) (ok : bool)
   : list string :=
   tag (Bool.eqb (allowed c from to amt) ok) ("corr:" ++ what) ++
@@ -85,60 +103,184 @@ Definition check_answer (what : string) (c : config) (from to : addr) (amt : coi
      tag (deposit_clause c from to) ("prop:deposit_without_authority " ++ what)
    else []).
 
-Definition delta_eqb (x y : denom * Z * Z) : bool :=
-  Pos.eqb (fst (fst x)) (fst (fst y)) && Z.eqb (snd (fst x)) (snd (fst y)) && Z.eqb (snd x) (snd y).
+(** What the property demands of a movement the application let through under configuration [ac]:
+    the documented marker rules permit it for the ORIGINAL receiver, the clauses hold, the sender is
+    not sanctioned. *)
+Definition moved_clauses (what : string) (ac : app_config) (from to : addr) (amt : coins) : list string :=
+  let c := ac_marker ac in
+  tag (doc_send_allowed c from to amt) ("prop:documented_rules " ++ what) ++
+  tag (fee_collector_clause c to amt) ("prop:restricted_coin_to_fee_collector " ++ what) ++
+  tag (withdraw_clause c from) ("prop:withdraw_without_authority " ++ what) ++
+  tag (deposit_clause c from to) ("prop:deposit_without_authority " ++ what) ++
+  tag (sanction_passes (ac_sanction ac) from) ("prop:sanctioned_sender_moved_funds " ++ what).
 
-Definition expected_deltas (from to : addr) (amt : coins) : list (denom * Z * Z) :=
-  map (fun p => if addr_eqb from to then (fst p, 0%Z, 0%Z) else (fst p, (- snd p)%Z, snd p)) amt.
+(** ... and of a movement the bank refused: the documented rules or the sanction refuse it. *)
+Definition denied_clauses (what : string) (ac : app_config) (from to : addr) (amt : coins) : list string :=
+  tag (negb (doc_send_allowed (ac_marker ac) from to amt && sanction_passes (ac_sanction ac) from))
+      ("prop:documented_rules " ++ what).
 
-Definition check_bank (what : string) (c : config) (from to : addr) (amt : coins) (o : bank_obs)
-  : list string :=
+Definition delta_eqb (x y : denom * Z * Z * Z) : bool :=
+  let '(d1, f1, t1, h1) := x in let '(d2, f2, t2, h2) := y in
+  Pos.eqb d1 d2 && Z.eqb f1 f2 && Z.eqb t1 t2 && Z.eqb h1 h2.
+
+(** Net change of [a] when [amount] moves from [from] to [dest]. *)
+Definition net (a from dest : addr) (amount : Z) : Z :=
+  ((if addr_eqb a dest then amount else 0) - (if addr_eqb a from then amount else 0))%Z.
+
+Definition expected_deltas (from to holder dest : addr) (amt : coins) : list (denom * Z * Z * Z) :=
+  map (fun p => (fst p, net from from dest (snd p), net to from dest (snd p), net holder from dest (snd p))) amt.
+
+(** Independent of the model: a quarantined receiver (not bypassed, not auto-accepting the sender) is
+    not credited; the holder is. *)
+Definition quarantine_clause (ac : app_config) (from to : addr) (amt : coins) (d : list (denom * Z * Z * Z)) : bool :=
+  let qc := ac_quar ac in
+  if negb (qc_bypass qc) && is_quarantined qc to && negb (is_auto_accept qc to from)
+     && negb (addr_eqb from (qc_holder qc)) && negb (addr_eqb to (qc_holder qc))
+  then list_eqb delta_eqb d (map (fun p => (fst p, (- snd p)%Z, 0%Z, snd p)) amt)
+  else true.
+
+Definition addr_opt_eqb := opt_eqb addr_eqb.
+
+(** One bank path.  [model] is the destination the model predicts (None = refused). *)
+Definition check_bank (what : string) (ac : app_config) (from to : addr) (amt : coins)
+           (model : option addr) (redirectable : bool) (o : bank_obs) : list string :=
   match o with
   | BNotRun => []
-  | BDenied => check_answer what c from to amt false
+  | BDenied =>
+      tag (addr_opt_eqb model None) ("corr:" ++ what) ++ denied_clauses what ac from to amt
   | BMoved d =>
-      check_answer what c from to amt true ++
-      tag (list_eqb delta_eqb d (expected_deltas from to amt)) ("corr:" ++ what ++ "_balances")
+      tag (match model with Some _ => true | None => false end) ("corr:" ++ what) ++
+      moved_clauses what ac from to amt ++
+      match model with
+      | Some dest => tag (list_eqb delta_eqb d (expected_deltas from to (qc_holder (ac_quar ac)) dest amt))
+                         ("corr:" ++ what ++ "_balances")
+      | None => []
+      end ++
+      (if redirectable then tag (quarantine_clause ac from to amt d) ("prop:quarantined_receiver_credited " ++ what)
+       else [])
   end.
 
 Definition coin_eqb (x y : denom * Z) : bool := Pos.eqb (fst x) (fst y) && Z.eqb (snd x) (snd y).
 
-(** Sum per denom of a list of coin lists, over the denoms listed in [ds]. *)
 Definition amount_of (d : denom) (amt : coins) : Z :=
   fold_left (fun acc p => if Pos.eqb (fst p) d then (acc + snd p)%Z else acc) amt 0%Z.
 
+(** Multi-send: net change of [a] in denom [d] given the destination of every output. *)
+Definition multi_net (a from : addr) (d : denom) (outs : list (addr * coins)) (dests : list addr) : Z :=
+  fold_left (fun acc od => (acc + net a from (snd od) (amount_of d (snd (fst od))))%Z) (combine outs dests) 0%Z.
+
+Fixpoint all_some {X} (l : list (option X)) : option (list X) :=
+  match l with
+  | [] => Some []
+  | Some x :: r => match all_some r with Some r' => Some (x :: r') | None => None end
+  | None :: _ => None
+  end.
+
+Definition triple_eqb (x y : addr * denom * Z) : bool :=
+  addr_eqb (fst (fst x)) (fst (fst y)) && Pos.eqb (snd (fst x)) (snd (fst y)) && Z.eqb (snd x) (snd y).
+
+(** Settlement legs: net change of (a, d). *)
+Definition legs_net (a : addr) (d : denom) (legs : list (addr * addr * coins * bool)) : Z :=
+  fold_left (fun acc l => let '(f, t, amt, _) := l in (acc + net a f t (amount_of d amt))%Z) legs 0%Z.
+
 Definition check (cs : case) : list string :=
   match cs with
-  | CSend c from to amt fn_ok fn_same_to singles send io deleg =>
+  | CSend ac from to amt fn_ok fn_same_to singles send io deleg =>
+      let c := ac_marker ac in
       check_answer "send_restriction_fn" c from to amt fn_ok ++
       tag (if fn_ok then fn_same_to else true) "corr:send_restriction_fn_destination" ++
       tag (Bool.eqb fn_ok (forallb (fun x => x) singles)) "prop:each_denom_on_its_own" ++
       tag (list_eqb Bool.eqb (map (fun p => allowed c from to [p]) amt) singles) "corr:single_denoms" ++
-      check_bank "send_coins" c from to amt send ++
-      check_bank "input_output_coins" c from to amt io ++
-      check_bank "delegate_coins" c from to amt deleg
-  | CMulti c from outs fn_oks io =>
+      check_bank "send_coins" ac from to amt (app_restriction_seq ac from to amt) true send ++
+      check_bank "input_output_coins" ac from to amt (app_restriction_seq ac from to amt) true io ++
+      check_bank "delegate_coins" ac from to amt (delegate_dest ac from to amt) false deleg
+  | CMulti ac from outs fn_oks io =>
+      let c := ac_marker ac in
       let model := map (fun o => allowed c from (fst o) (snd o)) outs in
       let doc := map (fun o => doc_send_allowed c from (fst o) (snd o)) outs in
-      let accepted := match io with MDenied => false | MMoved _ _ => true end in
+      let dests := all_some (map (fun o => app_restriction_seq ac from (fst o) (snd o)) outs) in
+      let doc_app := forallb (fun x => x) doc && sanction_passes (ac_sanction ac) from in
+      let accepted := match io with MDenied => false | MMoved _ _ _ => true end in
       tag (list_eqb Bool.eqb model fn_oks) "corr:multi_send_restriction_fn" ++
       tag (list_eqb Bool.eqb doc fn_oks) "prop:documented_rules multi send_restriction_fn" ++
-      tag (Bool.eqb (forallb (fun x => x) model) accepted) "corr:multi_input_output_coins" ++
-      tag (Bool.eqb (forallb (fun x => x) doc) accepted) "prop:documented_rules multi input_output_coins" ++
+      tag (Bool.eqb (match dests with Some _ => true | None => false end) accepted) "corr:multi_input_output_coins" ++
+      tag (Bool.eqb doc_app accepted) "prop:documented_rules multi input_output_coins" ++
       (if accepted then
          tag (forallb (fun o => fee_collector_clause c (fst o) (snd o) && withdraw_clause c from
                                 && deposit_clause c from (fst o)) outs)
              "prop:multi_in_particular_clauses"
        else []) ++
-      match io with
-      | MDenied => []
-      | MMoved fd od =>
-          tag (forallb (fun p => Z.eqb (snd p) (- fold_left (fun acc o => acc + amount_of (fst p) (snd o)) outs 0)%Z) fd
-               && list_eqb (list_eqb coin_eqb) od (map snd outs)) "corr:multi_balances"
+      match io, dests with
+      | MMoved fd od hd, Some ds =>
+          let holder := qc_holder (ac_quar ac) in
+          tag (forallb (fun p => Z.eqb (snd p) (multi_net from from (fst p) outs ds)) fd
+               && forallb (fun p => Z.eqb (snd p) (multi_net holder from (fst p) outs ds)) hd
+               && Nat.eqb (List.length outs) (List.length od)
+               && forallb (fun oo : (addr * coins) * list (denom * Z) =>
+                             list_eqb coin_eqb (snd oo)
+                               (map (fun p => (fst p, multi_net (fst (fst oo)) from (fst p) outs ds)) (snd (fst oo))))
+                          (combine outs od))
+              "corr:multi_balances"
+      | _, _ => []
       end
   | CMatch req attr obs =>
       tag (Bool.eqb (match_attribute (b req) (b attr)) obs) "corr:match_attribute" ++
       tag (Bool.eqb (doc_match (b req) (b attr)) obs) "prop:documented_wildcard_levels"
+  | CTransfer ac admin from to d a authz_ok forcible blocked obs =>
+      (* markertypes.WithBypass at Keeper.TransferCoin *)
+      let ac' := with_marker_bypass ac in
+      let c := ac_marker ac in
+      let model := transfer_coin ac admin from to d a authz_ok forcible blocked in
+      match obs with
+      | BNotRun => []
+      | BDenied => tag (addr_opt_eqb model None) "corr:transfer_request"
+      | BMoved dl =>
+          tag (match model with Some _ => true | None => false end) "corr:transfer_request" ++
+          moved_clauses "transfer_request" ac' from to [(d, a)] ++
+          tag (match marker_for_denom c d with
+               | Some m => marker_active m && restricted_coin c d &&
+                           (has_role m admin AcTransfer || has_role m admin AcForceTransfer) &&
+                           (addr_eqb admin from || authz_ok ||
+                            (m_forced m && has_role m admin AcForceTransfer))
+               | None => false
+               end) "prop:transfer_request_without_transfer_authority" ++
+          tag (match marker_at c to with
+               | Some tm => match m_type tm with MRestricted => has_role tm admin AcDeposit | MCoin => true end
+               | None => true
+               end) "prop:deposit_without_authority transfer_request" ++
+          match model with
+          | Some dest => tag (list_eqb delta_eqb dl (expected_deltas from to (qc_holder (ac_quar ac)) dest [(d, a)]))
+                             "corr:transfer_request_balances"
+          | None => []
+          end ++
+          tag (quarantine_clause ac from to [(d, a)] dl) "prop:quarantined_receiver_credited transfer_request"
+      end
+  | CSettle ac admin legs accepted deltas =>
+      (* markertypes.WithTransferAgents(admin) at Keeper.SettleOrders, quarantine.WithBypass at Keeper.DoTransfer *)
+      let ac' := settle_ctx ac admin in
+      tag (Bool.eqb (settle_ok ac admin legs) accepted) "corr:market_settle" ++
+      (if accepted then
+         flat_map (fun l => let '(f, t, amt, _) := l in moved_clauses "market_settle" ac' f t amt) legs ++
+         tag (list_eqb triple_eqb deltas (map (fun x => (fst (fst x), snd (fst x), legs_net (fst (fst x)) (snd (fst x)) legs)) deltas))
+             "corr:market_settle_balances"
+       else [])
+  | CValueOwner ac signers owner to d blocked obs =>
+      (* markertypes.WithTransferAgents(signers) at msgServer.UpdateValueOwners *)
+      let ac' := with_agents ac signers in
+      let model := update_value_owner ac signers owner to d blocked in
+      match obs with
+      | BNotRun => []
+      | BDenied => tag (addr_opt_eqb model None) "corr:update_value_owners"
+      | BMoved dl =>
+          tag (match model with Some _ => true | None => false end) "corr:update_value_owners" ++
+          moved_clauses "update_value_owners" ac' owner to [(d, 1%Z)] ++
+          match model with
+          | Some dest => tag (list_eqb delta_eqb dl (expected_deltas owner to (qc_holder (ac_quar ac)) dest [(d, 1%Z)]))
+                             "corr:update_value_owners_balances"
+          | None => []
+          end ++
+          tag (quarantine_clause ac owner to [(d, 1%Z)] dl) "prop:quarantined_receiver_credited update_value_owners"
+      end
   end.
 
 Definition check_all := check_list check.
